@@ -41,6 +41,17 @@ def scene(d, rng, K, F, T):
     return P[:, None, :] * jitter
 
 
+def cast_mask(d, mask):
+    """the same scene as float64 / float32 / (binary) integer mask"""
+    dt = d.choice(['float64', 'float64', 'float32', 'int8', 'int64', 'bool-as-int'])
+    if dt == 'float64':
+        return mask, dt
+    if dt == 'float32':
+        return mask.astype(np.float32), dt
+    binary = mask > 0.25
+    return binary.astype(np.int8 if dt == 'int8' else np.int64), dt
+
+
 def permute(mask, field):
     K, F, T = mask.shape
     out = np.empty_like(mask)
@@ -99,12 +110,13 @@ def greedy_restores_consistency(d, ctx):
     mask = scene(d, rng, K, F, T)
     field, fk = draw_field(d, rng, K, F)
     mixed = permute(mask, field)
+    mixed, dt = cast_mask(d, mixed)
     metric = d.choice(['cos', 'euclidean', 'multiply'])
     aligner = pa.GreedyPermutationAlignment(similarity_metric=metric)
     mapping = ctx.lib(aligner.calculate_mapping, mixed)
     ok, comp = consistent(field, np.asarray(mapping))
-    ctx.describe(K=K, F=F, T=T, field=fk, metric=metric)
-    ctx.label(f'K={K}', f'F={F}', fk, metric)
+    ctx.describe(K=K, F=F, T=T, field=fk, metric=metric, dtype=dt)
+    ctx.label(f'K={K}', f'F={F}', fk, metric, f'dtype={dt}')
     require(ok, 'greedy-class-order-not-consistent',
             f'metric={metric} K={K} F={F}: first inconsistent bin '
             f'{int(np.argmax(np.any(comp != comp[:, :1], axis=0)))}', metric=metric)
@@ -157,8 +169,10 @@ def dhtv_restores_consistency(d, ctx):
     mask = scene(d, rng, K, F, T)
     field, fk = draw_field(d, rng, K, F, first_segment=first)
     mixed = permute(mask, field)
-    ctx.describe(K=K, F=F, T=T, field=fk, config=cfg, first_segment=first)
-    ctx.label(f'K={K}', f'F={F}', fk, 'default' if 'default' in cfg else 'custom')
+    mixed, dt = cast_mask(d, mixed)
+    ctx.describe(K=K, F=F, T=T, field=fk, config=cfg, first_segment=first, dtype=dt)
+    ctx.label(f'K={K}', f'F={F}', fk, 'default' if 'default' in cfg else 'custom',
+              f'dtype={dt}')
     mapping = np.asarray(ctx.lib(aligner.calculate_mapping, mixed))
     ok, comp = consistent(field, mapping)
     require(ok, 'dhtv-class-order-not-consistent',
